@@ -7,6 +7,7 @@
 (*           cj (the reader conjugated the result: lower sideband)         *)
 (*  "dtype"  din, got: result dtype or "ValueError"                        *)
 (*  "reader" real-sampled file: raw / returned length and sample rate      *)
+(*  "longreal" / "longtone"  long axes, sampled output indices (see below) *)
 (* The expected lane is R2C!R2C(x), evaluated by TLC.                      *)
 (***************************************************************************)
 EXTENDS TraceBase, R2C
@@ -27,8 +28,35 @@ ReaderFailed(e) ==
   (IF e.len # e.rawlen \div 2 THEN {"length"} ELSE {})
   \cup (IF 2 * e.rate # e.rawrate THEN {"sample_rate"} ELSE {})
   \cup (IF e.got # OutLen(2 * e.n) THEN {"read-length"} ELSE {})
+(* Long axes (N ~ 1e4 .. 1e5), sampled output indices ms.  No transform is needed for these  *)
+(* clauses: the mixing factor is an exact fourth root of unity for every n, so                *)
+(* (-1)^m Re(out[m]) = x[2m] up to the rounding of the two FFTs in the working precision:      *)
+(* budget 64 * eps * ceil(log2 N) * max|x|  (eps = 2^-23 single, 2^-52 double), plus 2^-50,   *)
+(* plus 4 N 2^-52 max|x|: the code evaluates exp(-i pi/2 n) from the double pi/2*n, whose      *)
+(* rounding (2^-53 * pi/2 * n) makes the factor inexact in double; measured 1.1 N 2^-52.       *)
+RECURSIVE CeilLog2R(_, _, _)
+CeilLog2R(n, p, k) == IF p >= n THEN k ELSE CeilLog2R(n, 2 * p, k + 1)
+CeilLog2(n) == CeilLog2R(n, 1, 0)
+Budget(e) ==
+  LET coef == FFromRat(R(FromInt(64 * CeilLog2(e.N)), Pow2(IF e.prec = "single" THEN 23 ELSE 52)))
+      phase == FFromRat(R(FromInt(4 * e.N), Pow2(52)))
+      a == IF Lt(e.amax, FOne) THEN FOne ELSE e.amax
+  IN Add(FMul(Add(coef, phase), a), Tol)
+LongRealFailed(e) ==
+  (IF e.outlen # OutLen(e.N) THEN {"length"} ELSE {})
+  \cup (IF \E i \in 1..Len(e.ms) : ~FClose(MulInt(e.ys[i], Sgn(e.ms[i])), e.xs[i], Budget(e)) THEN {"realpart"} ELSE {})
+  \cup {k \in DOMAIN e.flags : ~e.flags[k]}
+\* tone at w cycles per N samples -> complex tone at w - N/4 (0 < w < N/2), sampled
+ToneOutBig(N, w, ph, m) ==
+  CExp(RAdd(R(Mul(FromInt(4 * w - N), FromInt(2 * m)), FromInt(4 * N)), ph))
+LongToneFailed(e) ==
+  LET ph == R(e.ph.p, e.ph.q)
+  IN (IF e.outlen # OutLen(e.N) THEN {"length"} ELSE {})
+     \cup (IF \E i \in 1..Len(e.ms) : ~CClose(e.ys[i], ToneOutBig(e.N, e.w, ph, e.ms[i]), Budget(e)) THEN {"tone"} ELSE {})
 Failed(e) ==
   CASE e.ev = "r2c" -> R2cFailed(e)
+    [] e.ev = "longreal" -> LongRealFailed(e)
+    [] e.ev = "longtone" -> LongToneFailed(e)
     [] e.ev = "dtype" -> DtypeFailed(e)
     [] e.ev = "reader" -> ReaderFailed(e)
     [] OTHER -> {"unknown-event"}
